@@ -29,7 +29,7 @@ func checkFileRec(t *testing.T, rec *harness.Recorder, prop string, gen func(rt 
 	rapid.Check(t, func(rt *rapid.T) {
 		p := gen(rt)
 		noteCase(prop, "file", p.JSON())
-		res := Guard(func() Result { return run(p) })
+		res := guardOf(prop)(func() Result { return run(p) })
 		if res.V != nil {
 			if id := matchKnown(prop, res.V); id != "" {
 				rec.Exclude("matched:" + id)
